@@ -80,13 +80,13 @@ def cases(draw):
                    draw(st.one_of(st.just(0.0), st.floats(-1000, 1000,
                                                           width=32)))]
     mm = None
-    if draw(st.integers(0, 2)) == 0:
-        kind = draw(st.sampled_from(["exact", "free", "nomin"]))
+    if draw(st.integers(0, 1)) == 0:
+        kind = draw(st.sampled_from(["exact", "exact", "free", "nomin"]))
         if kind == "exact":
             span = {"uint8": 255, "uint16": 65535, "uint32": 2 ** 32 - 1,
                     "uint64": 2 ** 52, "float32": 1}[out]
             k = draw(st.sampled_from([1, 2, 0.5, 4]))
-            imin = draw(st.sampled_from([0.0, -16.0, 8.0, None]))
+            imin = draw(st.sampled_from([0.0, -16.0, 8.0, None, None]))
             if imin is None:
                 # a window that ends exactly at zero (e.g. CT: -1000..0)
                 mm = [-float(span * k), 0.0]
@@ -110,6 +110,7 @@ def cases(draw):
         "content": draw(st.sampled_from(["position", "position", "limits"])),
         "seed": draw(st.integers(0, 2 ** 31)),
         "big_endian": draw(st.integers(0, 3)) == 0,
+        "via": draw(st.sampled_from(["api", "cli"])),
     }
 
 
@@ -273,11 +274,44 @@ def check_case(ctx, case):
         mm = case["minmax"]
         try:
             with ds.captured_atexit(), np.errstate(all="ignore"):
-                rc = volume_reader.volume_file_to_precomputed(
-                    path, dest, ignore_scaling=case["ignore_scaling"],
-                    input_min=None if mm is None else mm[0],
-                    input_max=None if mm is None else mm[1],
-                    load_full_volume=not case["mmap"], options=options)
+                if case.get("via") == "cli" and not (
+                        mm is not None and mm[0] is None):
+                    # the same conversion asked for on the command line
+                    from neuroglancer_scripts.scripts import \
+                        volume_to_precomputed as v2p
+                    argv = ["volume-to-precomputed", path, dest,
+                            "--compresslevel", "1"]
+                    if case["ignore_scaling"]:
+                        argv.append("--ignore-scaling")
+                    if mm is not None:
+                        argv += ["--input-min=%r" % mm[0],
+                                 "--input-max=%r" % mm[1]]
+                    if case["mmap"]:
+                        argv.append("--mmap")
+                    if options["flat"]:
+                        argv.append("--flat")
+                    if not options["gzip"]:
+                        argv.append("--no-gzip")
+                    rc = v2p.main(argv)
+                elif case.get("via") == "cli":
+                    from neuroglancer_scripts.scripts import \
+                        volume_to_precomputed as v2p
+                    argv = ["volume-to-precomputed", path, dest,
+                            "--compresslevel", "1", "--input-max=%r" % mm[1]]
+                    argv += ["--ignore-scaling"] * case["ignore_scaling"]
+                    argv += ["--mmap"] * case["mmap"]
+                    argv += ["--flat"] * options["flat"]
+                    argv += ["--no-gzip"] * (not options["gzip"])
+                    rc = v2p.main(argv)
+                else:
+                    rc = volume_reader.volume_file_to_precomputed(
+                        path, dest, ignore_scaling=case["ignore_scaling"],
+                        input_min=None if mm is None else mm[0],
+                        input_max=None if mm is None else mm[1],
+                        load_full_volume=not case["mmap"], options=options)
+        except SystemExit as exc:
+            ctx.fail("volume-to-precomputed exited with %r (%s)" % (
+                exc.code, describe(case)))
         except Exception as exc:
             from vlib.runner import _from_repo
             if not _from_repo(exc):
@@ -349,6 +383,7 @@ def run(ctx, n):
             "mmap" if case["mmap"] else "full", "scaling." + sk,
             "minmax" if case["minmax"] else "nominmax",
             "ignore" if case["ignore_scaling"] else "apply",
+            "via." + case.get("via", "api"),
             "big_endian_file" if case.get("big_endian") and
             case["layout"] != "rgb" else "little_endian_file"])
     ctx.run_hypothesis(cases(), check, n)
